@@ -87,6 +87,7 @@ type limitRun struct {
 	firstRefused int // index of the first refused batch, len(batches) if none
 	peak         int64
 	msg          string
+	cut          bool // batches were left unsent after the refusal
 }
 
 // runWithLimit decodes the stream with a consumer limited to `limit` bytes.
@@ -109,7 +110,10 @@ func runWithLimit(batches []encodedBatch, limit uint64, reference [][]string) li
 				r.msg = fmt.Sprintf("limit %d, batch %d: refused with an error that is not recognisable as the memory-limit error: %v", limit, i, d.Err)
 			}
 			r.firstRefused = i
-			break // reader state is undefined after a refusal
+			if i+1 < len(batches) {
+				r.cut = true
+			}
+			break // reader state is undefined after a refusal (known finding continue-after-refusal)
 		}
 		if diff := canon.Diff(reference[i], d.Canon); diff != "" {
 			r.msg = fmt.Sprintf("limit %d, batch %d: decoded telemetry differs from the unlimited reference: %s", limit, i, diff)
@@ -222,6 +226,11 @@ func TestC14(t *testing.T) {
 			rec.Label(fmt.Sprintf("first_refusal_at_batch=%s", map[bool]string{true: "none", false: bucket(r.firstRefused)}[r.firstRefused >= nb]), 1)
 		}
 		rec.Label("stream_limit_pairs", len(runs))
+		for _, r := range runs {
+			if r.cut {
+				rec.Excluded("continue-after-refusal")
+			}
+		}
 		labels := []string{"batches=" + bucket(nb)}
 		if bigValue > 0 {
 			labels = append(labels, fmt.Sprintf("single_buffer_of_%d_MiB", (bigValue+(1<<19))>>20))
